@@ -23,6 +23,24 @@ def cmapGlyph (groups : List (Nat × Nat × Nat)) (c : Nat) : Option Nat :=
   | some g => let id := g.2.2 + (c - g.1); if id < 65536 then some id else none
   | none => none
 
+/-- `vs:d:lo:hi` (default UVS range) / `vs:n:cp:gid` (non-default mapping) entries -/
+def parseUvs (s : String) : Option (List (Nat × Bool × Nat × Nat)) :=
+  if s == "-" then some []
+  else (splitOn1 s ',').mapM fun e =>
+    match splitOn1 e ':' with
+    | [vs, k, a, b] => do
+        let vs ← vs.toNat?; let a ← a.toNat?; let b ← b.toNat?
+        if k == "d" then pure (vs, true, a, b) else if k == "n" then pure (vs, false, a, b) else none
+    | _ => none
+
+/-- ttf-parser `Face::glyph_variation_index`: the selector's default UVS ranges first (→ the nominal
+    glyph of the base), then its non-default mappings -/
+def variantGlyph (groups : List (Nat × Nat × Nat)) (uvs : List (Nat × Bool × Nat × Nat)) (c v : Nat) : Option Nat :=
+  if uvs.any (fun e => e.1 == v && e.2.1 && e.2.2.1 ≤ c && c ≤ e.2.2.2) then cmapGlyph groups c
+  else match uvs.find? (fun e => e.1 == v && !e.2.1 && e.2.2.1 == c) with
+    | some e => some e.2.2.2
+    | none => none
+
 def parseText (s : String) : Option (List (Nat × Nat × Nat)) :=
   (splitOn1 s ',').mapM fun t =>
     match splitOn1 t ':' with
@@ -85,6 +103,20 @@ def handle (ts : List String) : Option String :=
       let groups ← parseCmap cmap
       let text ← parseText text
       let F : Font := { glyph := cmapGlyph groups, invisible := inv }
+      let (buf, flags) := initBuffer text 0
+      match normalize genU F genK genFuel mode buf flags with
+      | none => pure "unmodelled"
+      | some (l, flags) => pure (" ".intercalate (s!"ok 1 {flags}" :: l.map showInfo))
+  | ["runv", mode, level, inv, nfvs, _fonthex, cmap, uvs, text] => do
+      let mode ← mode.toNat?
+      let level ← level.toNat?
+      if mode > 4 ∨ level > 1 then none
+      let inv ← if inv == "-" then some none else inv.toNat?.map some
+      let nfvs ← if nfvs == "-" then some false else nfvs.toNat?.map (fun _ => true)
+      let groups ← parseCmap cmap
+      let uvs ← parseUvs uvs
+      let text ← parseText text
+      let F : Font := { glyph := cmapGlyph groups, invisible := inv, variant := variantGlyph groups uvs, nfvs := nfvs }
       let (buf, flags) := initBuffer text 0
       match normalize genU F genK genFuel mode buf flags with
       | none => pure "unmodelled"
